@@ -17,6 +17,10 @@ type c19Caller struct {
 	AtMs   int `json:"at_ms"`
 	HoldMs int `json:"hold_ms"`
 	Out    int `json:"out"`
+	// CancelMs >= 0: the caller's context is cancelled that long after its arrival (0 = at the very instant
+	// of the call). A cancelled caller is outside the "everybody is served" claim, but whatever happens to
+	// it must not cost the pool capacity.
+	CancelMs int `json:"cancel_ms"`
 }
 
 type c19Case struct {
@@ -46,7 +50,8 @@ func genC19(coop bool) func(t *rapid.T) c19Case {
 			return c19Caller{
 				AtMs:   rapid.SampledFrom([]int{0, 0, 0, 1, 2, 5, 7, 10, 20}).Draw(t, "at"),
 				HoldMs: rapid.SampledFrom([]int{1, 2, 5, 5, 7, 10, 30}).Draw(t, "hold"),
-				Out:    rapid.IntRange(0, 2).Draw(t, "out"),
+				Out:      rapid.IntRange(0, 2).Draw(t, "out"),
+				CancelMs: rapid.SampledFrom([]int{-1, -1, -1, -1, -1, -1, 0, 0, 1, 3}).Draw(t, "cancel"),
 			}
 		})
 		c.Callers = rapid.SliceOfN(one, n, n).Draw(t, "callers")
@@ -112,6 +117,15 @@ func runC19InBubble(c c19Case) (out kit.Outcome) {
 		}
 		callers[i] = w.newCaller("a", spec.HoldMs, spec.Out)
 		w.start(callers[i])
+		if spec.CancelMs == 0 {
+			cl := callers[i]
+			w.wg.Add(1)
+			go func() { defer w.wg.Done(); cl.cancel() }()
+		} else if spec.CancelMs > 0 {
+			cl, d := callers[i], time.Duration(spec.CancelMs)*time.Millisecond
+			w.wg.Add(1)
+			go func() { defer w.wg.Done(); time.Sleep(d); cl.cancel() }()
+		}
 	}
 	// everybody must have been served by (last arrival + sum of hold times)
 	deadline := time.Duration(maxAt+sum) * time.Millisecond
@@ -133,9 +147,15 @@ func runC19InBubble(c c19Case) (out kit.Outcome) {
 	if viol == nil && c.Overload {
 		to := time.Duration(c.Stack.TimeoutMs) * time.Millisecond
 		for i, s := range snap {
+			if c.Callers[i].CancelMs >= 0 {
+				continue
+			}
 			switch {
 			case !s.Done:
 				o := kit.Viol(kind+":overload-stuck", "caller %d (arrived +%dms, backlog timeout %v) has still not returned at +%v", i, c.Callers[i].AtMs, to, w.now())
+				viol = &o
+			case !s.OK && s.RetAt == s.Arrived && c19WaitingAt(snap, i) < c.Stack.Backlog:
+				o := kit.Viol(kind+":refused-with-room", "caller %d (arrived +%v) was refused at once although at most %d callers can have been waiting then (backlog %d)", i, s.Arrived, c19WaitingAt(snap, i), c.Stack.Backlog)
 				viol = &o
 			case !s.OK && s.RetAt != s.Arrived && s.RetAt != s.Arrived+to:
 				o := kit.Viol(kind+":overload-refusal-instant", "caller %d (arrived +%v) was refused at +%v: neither at once (full backlog) nor at its backlog timeout (%v)", i, s.Arrived, s.RetAt, to)
@@ -152,6 +172,9 @@ func runC19InBubble(c c19Case) (out kit.Outcome) {
 	if viol == nil && !c.Overload {
 		for i, s := range snap {
 			spec := c.Callers[i]
+			if spec.CancelMs >= 0 {
+				continue // outside the claim (its context was cancelled)
+			}
 			bound := time.Duration(spec.AtMs+sum) * time.Millisecond
 			switch {
 			case !s.Done:
@@ -219,6 +242,34 @@ func runC19InBubble(c c19Case) (out kit.Outcome) {
 		w.release(cl, 0)
 		synctest.Wait()
 	}
+	// a second wave: limit+backlog callers at one instant must all be admitted or queued and then served
+	if c.Stack.Ordering != "random" {
+		var wave []*vtCaller
+		for i := 0; i < limit+c.Stack.Backlog; i++ {
+			waiting := len(w.blocked())
+			cl := w.newCaller("a", 1, 0)
+			w.start(cl)
+			synctest.Wait() // one after the other: the backlog bound is then exact
+			wave = append(wave, cl)
+			if cl.Done && !cl.OK && waiting < c.Stack.Backlog {
+				w.unwind(time.Duration(c.Stack.TimeoutMs)*time.Millisecond + 2*time.Second)
+				w.flush()
+				return kit.Viol(kind+":second-wave-refused", "after the first scenario, caller %d of a second wave was refused at once although only %d of %d backlog places were taken", i, waiting, c.Stack.Backlog)
+			}
+		}
+		time.Sleep(time.Duration(len(wave)+5) * time.Millisecond)
+		synctest.Wait()
+		for i, cl := range wave {
+			if c.Overload {
+				break // with a short backlog timeout some of the wave may legitimately time out
+			}
+			if !cl.Done || !cl.OK {
+				w.unwind(time.Duration(c.Stack.TimeoutMs)*time.Millisecond + 2*time.Second)
+				w.flush()
+				return kit.Viol(kind+":second-wave", "after the first scenario, caller %d of a wave of limit+backlog=%d callers (1 ms hold each, timeout %d ms) was not served (done=%v ok=%v at +%v, arrived +%v)", i, len(wave), c.Stack.TimeoutMs, cl.Done, cl.OK, cl.RetAt, cl.Arrived)
+			}
+		}
+	}
 	w.flush()
 	holds := map[int]bool{}
 	coincide := false
@@ -265,4 +316,19 @@ func TestC19_sched_Coop(t *testing.T) {
 		Rule: "as TestC19_pools under generated cooperative schedules",
 		Gen:  genC19(true), Run: runC19, Timeout: 30 * time.Second,
 	})
+}
+
+// c19WaitingAt: an upper bound on the number of callers that can have been waiting in the backlog when
+// caller i arrived (callers that arrived no later and had not returned strictly before that instant).
+func c19WaitingAt(snap []vtCaller, i int) int {
+	n := 0
+	for j, s := range snap {
+		if j == i {
+			continue
+		}
+		if s.Arrived <= snap[i].Arrived && (!s.Done || s.RetAt > snap[i].Arrived || (s.RetAt == snap[i].Arrived && !s.OK)) {
+			n++
+		}
+	}
+	return n
 }
